@@ -16,7 +16,7 @@ def corr_targets(chk):
     names = TARGETS + ["uranium", "Proton", ""]
     idx = [drv.add(f"target {n if n else '_'}") for n in names]
     # explicit (Z, A) dicts, in both key orders: left alone, read by name
-    for tgt in (dict(Z=26.0, A=56.0), dict(A=56.0, Z=26.0), dict(A=1.0, Z=0.0)):
+    for tgt in (dict(Z=26.0, A=56.0), dict(A=56.0, Z=26.0), dict(A=1.0, Z=0.0), dict(Z=0.0, A=2.0), dict(Z=0.5, A=1.0), dict(Z=0, A=1)):
         o = dict(TargetDIS=dict(tgt))
         compatibility.update_target(o)
         ok = isinstance(o["TargetDIS"], dict) and o["TargetDIS"]["Z"] == tgt["Z"] and o["TargetDIS"]["A"] == tgt["A"]
@@ -55,7 +55,7 @@ def search(chk, r, n, max_pto):
             process, kind, pto = "CC", r.choice(["F2", "F3"]), 0
             proj, scheme, nfff, fl = structured[i]
         za = (float(r.uniform(0, 3)), float(r.uniform(3, 7)))
-        target = r.choice(TARGETS[1:] + [dict(Z=za[0], A=za[1]), dict(A=za[1], Z=za[0]), dict(A=1.0, Z=0.0)])
+        target = r.choice(TARGETS[1:] + [dict(Z=za[0], A=za[1]), dict(A=za[1], Z=za[0]), dict(A=1.0, Z=0.0), dict(A=1.0, Z=float(r.choice([0.3, 0.5]))), dict(A=2.0, Z=0.0)])
         name = f"{kind}_{fl}"
         p = [dict(x=float(r.choice([0.02, 0.1, 0.4])), Q2=float(r.choice([10.0, 100.0, 2000.0])))]
         th = cards.theory(PTO=pto_evol, PTODIS=pto, FNS=scheme, NfFF=nfff)
